@@ -108,9 +108,9 @@ Menu(m) ==
                [] m = api -> {FromAs("p.b", "__all__", "b_all"), AllInc(<<>>, "b_all")}
                [] OTHER -> {All(<<>>)} )
     [] Family = "side" ->          \* three top-level packages; only p is loaded, the others are side-loaded by resolve_aliases(external=True)
-        ( CASE m = "r" -> {Def("y"), Def("x")}
-            [] m = "q" -> {Def("x"), From("r", "y"), FromAs("r", "x", "y"), From("zz", "y")}
-            [] OTHER -> {From("q", "x"), From("zz", "y"), From("q", "y"), Star("q"), FromAs("r", "y", "x")} )
+        ( CASE m = "r" -> {Def("y")}
+            [] m = "q" -> {Def("x"), From("r", "y"), FromAs("r", "y", "x")} \cup (IF Scale = "quick" THEN {} ELSE {From("zz", "y"), Def("y")})
+            [] OTHER -> {From("q", "x"), From("zz", "y"), From("q", "y")} \cup (IF Scale = "quick" THEN {} ELSE {Star("q"), FromAs("r", "y", "x")}) )
     [] Family = "selfcyc" ->       \* a module imports itself under an alias and imports through it: chains that lead INTO a resolved cycle
         ( CASE m = "p.a" -> {ImportAs("p.a", "y"), From("p.a.y", "x"), Def("x")}
             [] m = "p.b" -> {From("p.a", "x"), ImportAs("p.a", "y"), From("p.b.y", "x")}
@@ -161,7 +161,8 @@ MaxLen(m) ==
     [] Family = "topstar" -> (IF m = "p" THEN 3 ELSE IF m = "p.b" THEN 1 ELSE 2)
     [] Family = "splice" -> (IF m = "p.b" THEN 3 ELSE 2)
     [] Family \in {"spl-down", "spl-up"} -> (IF m = "p" THEN 1 ELSE 2)
-    [] Family \in {"side", "selfcyc"} -> 2
+    [] Family = "side" -> (IF m = "r" THEN 1 ELSE 2)
+    [] Family = "selfcyc" -> 2
     [] Family \in {"pkg", "pkg-q"} -> (IF m = "p.s.c" THEN 1 ELSE 2)
     [] Family \in {"graph", "graph-q", "fine", "wild", "wild-q", "retarget", "retarget-q"} -> (IF m = "q" THEN 1 ELSE 2)
     [] OTHER -> 2
@@ -247,10 +248,14 @@ E1 == \E e \in AllStmts(prog) : e.s.op = "star" /\ e.s.m \in Present /\ ImportsO
 E2 == \E e \in AllStmts(prog) : e.s.op \in {"star", "from"} /\ e.s.m \notin Mods /\ e.s.m \notin {"zz", "p.zz"}
 \* C06-E3  a star import of a module that star-imports back (the pseudo member "pkg/mod/*" is itself exposed)
 E3 == \E e \in AllStmts(prog) : e.s.op = "star" /\ e.s.m \in Present /\ \E t \in StmtsOf(prog, e.s.m) : t.op = "star"
+\* C06-E4  resolve_aliases(external=True): a side-loaded package imports from a further package that has to be side-loaded
+\*         too - the fix-point test `unresolved != prev_unresolved` does not see that a package was loaded during the iteration
+E4 == Sched = "ext" /\ \E e \in AllStmts(prog) : TopOf(e.m) # "p" /\ e.s.op \in {"from", "star", "import"}
+                          /\ PP(e.s.m)[1] \in (TopPkgs \cap Present) \ {"p", TopOf(e.m)}
 Flags == (IF Prop = "C05"
           THEN (IF D1 THEN {"D1"} ELSE {}) \cup (IF D2 THEN {"D2"} ELSE {}) \cup (IF D3 THEN {"D3"} ELSE {})
                \cup (IF D4 THEN {"D4"} ELSE {}) \cup (IF D5 THEN {"D5"} ELSE {})
-          ELSE (IF E1 THEN {"E1"} ELSE {}) \cup (IF E2 THEN {"E2"} ELSE {}) \cup (IF E3 THEN {"E3"} ELSE {}))
+          ELSE (IF E1 THEN {"E1"} ELSE {}) \cup (IF E2 THEN {"E2"} ELSE {}) \cup (IF E3 THEN {"E3"} ELSE {}) \cup (IF E4 THEN {"E4"} ELSE {}))
 
 \* =========================================================================================================
 \* The visitor: members / imports / exports of one module  (agents/visitor.py)
@@ -452,7 +457,9 @@ StepEW(S0, t) ==
               IN IF notloaded
                  THEN \*   if external is False ...: continue
                       \*   try: self.load(package, try_relative_path=False)  except (ImportError, LoadingError): continue
-                      IF ~t.ext \/ pkg \notin (TopPkgs \cap Present) THEN SetTop(S0, [t EXCEPT !.i = @ + 1])
+                      IF ~t.ext THEN SetTop(S0, [t EXCEPT !.i = @ + 1])
+                      ELSE IF pkg \notin (TopPkgs \cap Present)
+                           THEN SetTop([S0 EXCEPT !.hist = IF TraceOn /\ S0.log THEN Append(@, <<"LD", <<pkg>>>>) ELSE @], [t EXCEPT !.i = @ + 1])
                       ELSE CallF(S0, [t EXCEPT !.st = "w-load", !.set = S0.seen], Fr("LD", ModId(pkg)))
                  \*   try: target = self.modules_collection.get_member(member.target_path)  except KeyError: continue
                  ELSE CallF(S0, [t EXCEPT !.st = "w-lk"], FrLK(S0.al[e.o].tp))
@@ -551,8 +558,9 @@ StepRM(S0, t) ==
                 pkg == S0.al[S0.erra].tp[1]
                 loadit == S0.ext /\ pkg \notin S0.lfail /\ TopOf(m) # pkg /\ ~\E k \in 1..Len(S0.coll) : S0.coll[k] = pkg
             IN IF ~loadit THEN SetTop(S1, [t EXCEPT !.st = "loop", !.i = @ + 1])
-               ELSE IF pkg \notin (TopPkgs \cap Present)
-                    THEN SetTop([S1 EXCEPT !.lfail = @ \cup {pkg}], [t EXCEPT !.st = "loop", !.i = @ + 1])
+               ELSE IF pkg \notin (TopPkgs \cap Present)          \* load() is called and raises ModuleNotFoundError
+                    THEN SetTop([S1 EXCEPT !.lfail = @ \cup {pkg}, !.hist = IF TraceOn /\ S0.log THEN Append(@, <<"LD", <<pkg>>>>) ELSE @],
+                                [t EXCEPT !.st = "loop", !.i = @ + 1])
                ELSE CallF(S1, [t EXCEPT !.st = "side", !.set = S0.seen], Fr("LD", ModId(pkg)))
          ELSE IF S0.exc = "CYC" THEN SetTop(S0, [t EXCEPT !.st = "loop", !.i = @ + 1])
          ELSE IF S0.exc # "" THEN Throw(S0, S0.exc)
